@@ -155,8 +155,13 @@ func buildCalib(rd rendered, res runResult, atPause []string, release bool) (c c
 						return nil
 					}
 					last.kind, last.site = "c", siteOf(evs, pi)
-					if last.held && last.site == "w" {
-						last.site = "h"
+					if last.held {
+						// native code that calls back late: a wrapper (h) or a closure (k)
+						if last.site == "w" {
+							last.site = "h"
+						} else if last.site == "l" || last.site == "e" {
+							last.site = "k"
+						}
 					}
 					stack = append(stack, level{e.Frame, &last.body})
 				}
